@@ -488,6 +488,7 @@ type Writer struct {
 	Calls    []Call
 	CurDL    time.Time // deadline last given to SetWriteDeadline
 	pending  Call
+	pendingOpen bool // a NextWriter step is between its parts (the writer is open but not yet registered)
 }
 
 func (w *Writer) begin(step int, name string) {
